@@ -815,7 +815,7 @@ fn prepare(qc: &Circuit, k: usize) -> Result<VG, Caught> {
 
 fn pair_case(family: &'static str, index: u64, r: &mut Rng, pair: CPair, judged: bool) {
     let c = ctx();
-    let (qa, qb) = (to_quizx(&pair.a), to_quizx(&pair.b));
+    let (qa, qb) = (crate::gen::circuit::to_quizx_layout(&pair.a), crate::gen::circuit::to_quizx_layout(&pair.b));
     let pool = if pair.a.is_pi4() && pair.b.is_pi4() { "exact" } else { "float" };
     let has_swap = pair.a.gates.iter().chain(pair.b.gates.iter()).any(|g| matches!(g, G::Swap(..)));
     let t0 = std::time::Instant::now();
